@@ -1,9 +1,15 @@
 #!/bin/sh
-# usage: try_seed.sh <patch.diff> <ID> [tier]   — apply to /repo, run the check, always revert
+# usage: try_seed.sh <patch.diff> <ID> [tier]
+# Applies the patch in a scratch worktree of /repo's HEAD (never in /repo itself), points the check at it
+# (VERIF_REPO) with a private evidence directory, and removes nothing from /verif/evidence.
 P=$1; ID=$2; TIER=${3:-quick}
-cd /repo && git status --short | grep -q . && { echo "/repo dirty"; exit 9; }
-git -C /repo apply "$P" || { echo "patch does not apply"; exit 9; }
-cd /verif && ./check $ID --tier $TIER > /tmp/try_$ID.log 2>&1; rc=$?
-git -C /repo checkout -- . ; git -C /repo clean -fdq -e target -e Cargo.lock
+WT=/tmp/seedwt_$ID
+if [ ! -d $WT ]; then git -C /repo worktree add -q --detach $WT HEAD || exit 9; fi
+git -C $WT checkout -q --detach $(git -C /repo rev-parse HEAD) && git -C $WT checkout -- . && git -C $WT clean -fdq
+cp /repo/Cargo.lock $WT/ 2>/dev/null
+git -C $WT apply "$P" || { echo "patch does not apply"; exit 9; }
+mkdir -p /tmp/seed_evidence_$ID
+cd /verif && VERIF_REPO=$WT VERIF_EVIDENCE_DIR=/tmp/seed_evidence_$ID ./check $ID --tier $TIER > /tmp/try_$ID.log 2>&1; rc=$?
+git -C $WT checkout -- . ; git -C $WT clean -fdq
 echo "exit=$rc"; grep -E "^VIOLATION|^INCONCLUSIVE|^KNOWN|^OK" /tmp/try_$ID.log | cut -c1-400
 exit $rc
